@@ -118,21 +118,27 @@ class Ctx:
             self._ch = h.hexdigest()[:16]
         return self._ch
 
-    def summary(self, suite_name, generic_path, params=None, **kw):
-        key = (suite_name, generic_path, tuple(sorted(kw.items())), tuple(params) if params else None)
+    def summary(self, suite_name, generic_path, params=None, select=None, **kw):
+        key = (suite_name, generic_path, select, tuple(sorted(kw.items())), tuple(params) if params else None)
         if key in self._summ:
             return self._summ[key]
         import hashlib
         import pickle
         S = self.suite(suite_name)
-        b = S.find(generic_path)
+        if select is not None:
+            cands = [x for x in S.by_generic.get(generic_path, []) if select in x['path']]
+            if len(cands) != 1:
+                raise KeyError('%s: %d instances of %s matching %s' % (suite_name, len(cands), generic_path, select))
+            b = cands[0]
+        else:
+            b = S.find(generic_path)
         if params is None:
             ps = [Sym(l['name'] or 'arg%d' % i) for i, l in enumerate(b['locals'][1:1 + b['argc']], 1)]
         else:
             ps = list(params)
         # summaries are shared between the check processes of one sweep (keyed by facts dir, interpreter sources and the query)
         cdir = os.path.join(self.dir, 'summ-' + self._code_hash())
-        ck = hashlib.sha256(repr((suite_name, generic_path, sorted(kw.items()), ps)).encode()).hexdigest()[:32]
+        ck = hashlib.sha256(repr((suite_name, generic_path, select, sorted(kw.items()), ps)).encode()).hexdigest()[:32]
         cpath = os.path.join(cdir, ck + '.pkl')
         summ = None
         if os.path.exists(cpath) and not os.environ.get('OPQ_NO_SUMMARY_CACHE'):
